@@ -163,7 +163,8 @@ fn cmd_batch(args: &Args) -> i32 {
     for (fi, f) in items.iter().enumerate() {
         let orig_len = f.tape.len();
         let (tape, execs) = shrunk[fi].clone();
-        let path = format!("{}/{}-{}-{}-{}.json", replay_dir, f.v.prop, sanitize(&f.v.class), seed, f.run);
+        let btag = std::env::var("CRRL_SIM_BUILD").map(|b| format!("{}-", sanitize(&b))).unwrap_or_default();
+        let path = format!("{}/{}-{}{}-{}-{}.json", replay_dir, f.v.prop, btag, sanitize(&f.v.class), seed, f.run);
         if let Err(err) = write_replay_file(&path, &e, tier, seed, f.run, &f.v, &tape, orig_len, execs) {
             eprintln!("cannot write replay file {}: {}", path, err);
             return 2;
